@@ -13,7 +13,10 @@ EXPLANATION = (
     "default example only if the token is absent from the corpus examples and some tag is present. R12.4 label<->column "
     "(twins T4): the bias store and the two weight stores index with `class_offset + label` with the same offset variable; "
     "all score vectors are vec![0; n_class] of the same n_class; the class offset advances by the number of tags of a "
-    "trained category only (checked in R06.2)."
+    "trained category only (checked in R06.2). R12.5 (E4+E8b): the tag feature loops of TagTrainer::add_example: for n in "
+    "0..N, L = token length + n + 1, starts i in satsub(token end, L) .. min(token start + 1, satsub(len, L - 1)), content "
+    "(i, i + L), relative position i + L - token end; saturating differences are compared by their linear difference, "
+    "min/max arguments in any order; the character and the character-type loops are twins."
 )
 NOT_DECIDED = ["equality of the stored scores with the learned classifier (numeric)"]
 
@@ -158,6 +161,83 @@ def run(chk):
            "bias and n-gram score vectors are not all vec![0; n_class] of the same variable (closure sizes %s, captured %s, bias size local %s)" % (sorted(cl_sizes), sorted(cap_locals), bias_size_local),
            site=C.site(b), sample={"closures": [c[0] for c in cl_sizes]})
     r123(chk, w)
+    r125(chk, w)
+
+
+def r125(chk, w):
+    """the tag features of an example: for n in 0..N, L = token length + n + 1: every start i with i <= token start,
+    i + L >= token end, i + L <= sentence length; content (i, i + L); relative position = i + L - token end"""
+    chk.rule("R12.5", "tag feature loops of TagTrainer::add_example: all n-grams that contain the token and lie inside the sentence, rel. position = characters past the token end; char/type twins")
+    fn = TT + "::add_example"
+    b, it, outs = C.run_fn(w, fn)
+    chk.fn(fn)
+    names, origin = C.iterator_names(b, outs)
+    rn0 = C.renamer(names)
+
+    extra = []
+
+    def canon(s):
+        s = rn0(s)
+        s = re.sub(r"vaporetto::sentence::Token::(start|end)\(&[^()]*\)", lambda m: "tok_" + m.group(1), s)
+        s = s.replace(C.S + "::len(&arg2)", "len")
+        for x, y in extra:
+            s = s.replace(x, y)
+        return s
+
+    def mknz(o):
+        nz = forms.Normalizer(it, o, rename=canon)
+        nz.linear_satsub = True
+        return nz
+    feats = {}
+    for kind, ctor in (("char", "char_ngram"), ("type", "type_ngram")):
+        cs = C.all_calls(outs, lambda e: e[2] == "vaporetto::tag_trainer::TagFeature::" + ctor)
+        if len(cs) != 1:
+            chk.undecided("R12.5", "%s:ctor" % kind, "expected one call of TagFeature::%s in add_example, found %d" % (ctor, len(cs)), site=C.site(b))
+            continue
+        e, o = cs[0]
+        nz = mknz(o)
+        relpos = canon(C.show_arg(nz, e[3][1]))
+        its = [x for x in dict.fromkeys(re.findall(r"it\d+", relpos)) if x != "it0"]
+        # the start iterator is the one whose range depends on the other
+        rng = {x: canon(C.show_arg(mknz(origin[x][1]), origin[x][0])) for x in its if x in origin}
+        i_it = [x for x in its if any(y != x and y in rng.get(x, "") for y in its)]
+        n_it = [x for x in its if x not in i_it]
+        if len(i_it) != 1 or len(n_it) != 1:
+            chk.undecided("R12.5", "%s:relpos" % kind, "relative position `%s` does not mention one size iterator and one start iterator" % relpos, site=C.site(b, e[1]))
+            continue
+        i, n = i_it[0], n_it[0]
+        # second pass with the iterators named before the forms are ordered
+        extra[:] = [("%s.next()@Some.0" % i, "i"), ("%s.next()@Some.0" % n, "n"), ("arg1.%s_ngram_size" % kind, "N")]
+        relpos = canon(C.show_arg(mknz(o), e[3][1]))
+        rng = {x: canon(C.show_arg(mknz(origin[x][1]), origin[x][0])) for x in (i, n)}
+        i_pat = re.compile(r"\bi\b")
+        if kind == "char":
+            cc = [x for x in C.all_calls(outs, lambda e_: e_[2] == C.S + "::text_substring") if i_pat.search(canon(C.show_arg(mknz(x[1]), x[0][3][1])))]
+            content = "(%s, %s)" % tuple(canon(C.show_arg(mknz(cc[0][1]), a)) for a in cc[0][0][3][1:3]) if len(cc) == 1 else "?"
+        else:
+            cc = [x for x in C.all_calls(outs, lambda e_: e_[2] and "Index" in e_[2] and len(e_[3]) > 1 and e_[3][1][0] == "agg" and "Range" in e_[3][1][1])
+                  if "char_types" in str(mknz(x[1]).path_atom(x[0][3][0][1])) and i_pat.search(canon(C.show_arg(mknz(x[1]), x[0][3][1])))]
+            content = canon(C.show_arg(mknz(cc[0][1]), cc[0][0][3][1])) if len(cc) == 1 else "?"
+            content = content.replace("Range{start: ", "(").replace(", end: ", ", ").rstrip("}") + ")" if content != "?" else "?"
+        d = {k_: forms.resort(v_) for k_, v_ in {"relpos": relpos, "irange": rng[i], "nrange": rng[n], "content": content}.items()}
+        extra[:] = []
+        feats[kind] = d
+        spec = {
+            "relpos": "1 + i + n - tok_start",
+            "irange": "Range{start: satdiff(-1 - n + tok_start), end: min(1 + tok_start, satdiff(len - n - tok_end + tok_start))}",
+            "nrange": "Range{start: 0, end: N}",
+            "content": "(i, 1 + i + n + tok_end - tok_start)",
+        }
+        for k in spec:
+            chk.ob("R12.5", "%s:%s" % (kind, k), d[k] == spec[k],
+                   "%s n-gram tag feature loop of add_example: %s is `%s`, specification `%s` (i n-gram start, n size-1, L = token length + n + 1; starts run over max(0, token end - L) .. min(token start, len - L) inclusive, "
+                   "the feature is characters i..i+L at relative position i + L - token end): the predictor matches every n-gram of the model at these positions, an n-gram the trainer never emits gets no weight"
+                   % (kind, k, d[k], spec[k]), site=C.site(b, e[1]), sample={"kind": kind, "what": k, "derived": d[k]})
+    chk.floor("R12.5", "tag feature constructors", len(feats), 2)
+    if len(feats) == 2:
+        for k in ("relpos", "irange", "nrange"):
+            a, bq = feats["char"][k], feats["type"][k]
+            chk.ob("R12.5", "twin:%s" % k, a == bq, "character and character-type tag feature loops disagree: %s vs %s" % (a, bq), site=C.site(b))
 
 
 def r123(chk, w):
